@@ -24,12 +24,14 @@ import (
 // Module is one loaded Go module of the repository (root or v2), or a
 // generated corpus module analysed against it.
 type Module struct {
-	// Renamed maps "pkgrel\tDeclName" of a known function that was renamed to its successor (see fold.go).
-	Renamed map[string]*types.Func
-	Name    string // "v2", "root", or a corpus name
-	Dir     string
-	Path    string // module import path
-	Fset    *token.FileSet
+	// Renamed maps "pkgrel\tDeclName" of a known function that was renamed to its successor (see fold.go); RenamedObjs
+	// does the same for package-level types ("pkgrel\tName").
+	Renamed     map[string]*types.Func
+	RenamedObjs map[string]types.Object
+	Name        string // "v2", "root", or a corpus name
+	Dir         string
+	Path        string // module import path
+	Fset        *token.FileSet
 	// Pkgs maps the import path relative to the module path ("restlicodec",
 	// "restli/batchkeyset", "" for the module root) to the package.
 	Pkgs map[string]*packages.Package
@@ -283,6 +285,9 @@ func (m *Module) lookupFunc(rel, name string) *types.Func {
 	tn = strings.TrimPrefix(tn, "*")
 	obj, _ := scope.Lookup(tn).(*types.TypeName)
 	if obj == nil {
+		obj, _ = m.RenamedObjs[rel+"\t"+tn].(*types.TypeName)
+	}
+	if obj == nil {
 		return nil
 	}
 	named, _ := obj.Type().(*types.Named)
@@ -303,7 +308,10 @@ func (m *Module) LookupObj(rel, name string) types.Object {
 	if p == nil {
 		return nil
 	}
-	return p.Types.Scope().Lookup(name)
+	if o := p.Types.Scope().Lookup(name); o != nil {
+		return o
+	}
+	return m.RenamedObjs[rel+"\t"+name]
 }
 
 // PkgOf returns the analysed package that declares obj.
